@@ -35,7 +35,7 @@ func init() {
 				Bound: "sanity cross-check of the specification, not counted as proved: all 83521 segments with endpoints on the quarter-pixel lattice of a 4x4 pixel window against exact rational clipping"},
 				descentLattice})
 		},
-		NotDecided: []string{"order of travel of the returned centres is only checked by the bounded stand-in descent-lattice", "that insertCoord establishes the index invariant indexInv (it is a precondition of the descent contracts)", "second sentence (non-collapsing polygon = concatenation of routed edges)"},
+		NotDecided: []string{"order of travel of the returned centres is only checked by the bounded stand-in descent-lattice", "second sentence (non-collapsing polygon = concatenation of routed edges)"},
 	}
 	propertyPlans["C14"] = &PropertyPlan{ID: "C14",
 		NotDecided: []string{"that a tile matrix set accepted by validation has root 1x1 and a power-of-two tile width (IsQuadTree does not check it); for the 14 built-in sets this is checked on the data (extra, exhaustive-data)"},
@@ -78,7 +78,7 @@ func init() {
 	propertyPlans["C08"] = &PropertyPlan{ID: "C08",
 		NotDecided: []string{
 			"second sentence (the geometry for a tile matrix is identical whether requested alone or together with others): a relation between two executions; what is proved per call is that the lists of the descent for a level are exactly the stored pixels of that level met by the edge (C02 contracts), that per-level results never share a backing array (alias discipline of the verifier: append to a re-sliced slice is rejected), and the id <-> level mapping",
-			"that the set of stored pixels of a coarser level does not depend on the deepest level (insertCoord's invariants are assumed, not proved)"},
+			"that the set of stored pixels of a coarser level does not depend on the deepest level: insertCoord is proved to store, per level, the pixel deepest/2^(deepest-level) with the grid's extent and centre, but the comparison of two indexes built at different depths is not stated as a lemma"},
 		Assumptions: []string{"preconditions of SnapPolygon's contract"},
 		Extra:       func(cc *checkCtx) *extraResult { return cc.runOverlayTests([]overlayTest{descentLattice}) },
 	}
@@ -91,7 +91,6 @@ func init() {
 	propertyPlans["C03"] = &PropertyPlan{ID: "C03",
 		NotDecided: []string{
 			"that the ring assembly only rearranges or drops the coordinates handed out by SnapClosestPoints (trusted leaves, no element-wise specification; bounded stand-in ring-assembly-small-alphabet only)",
-			"that insertCoord stores pixels with the extent and centre of the grid formula (indexGrid is an assumed postcondition of insertCoord; FromTileMatrixSet, InsertPoint, InsertCoord, InsertPolygon and the descent are proved to preserve / use it)",
 			"second sentence (bound by the reported deviation for grids that do not divide evenly): DeviationStats is only proved panic-free"},
 		Assumptions: []string{"float64 as real numbers: centre / 1e10 is exact", "preconditions of SnapPolygon's contract"},
 		Extra:       func(cc *checkCtx) *extraResult { return cc.runOverlayTests([]overlayTest{descentLattice, ringAssembly}) },
